@@ -4,15 +4,16 @@
    guards so that the liveness check cannot miss a non-progress cycle).
 
    Configurations (measured on this machine, 4-6 busy cores):
-     Sync_quick.cfg      repaired, chain <= 3, 1 source step, 1 fault, safety + liveness   143 655 states
+     Sync_quick.cfg      repaired, chain <= 3, 1 source step, 1 fault, safety + liveness 291 164 states
      Sync_h13.cfg        as coded for H13: RevertsJustified fails (29-35 step counterexample) ~17 000 states
      Sync_rvv.cfg        as coded for the unverified remote header: RevertsJustified fails
      Sync_underflow.cfg  as coded for the uint64 underflow: EventuallyConverges fails (lasso)
-     Sync_live4.cfg      repaired, chain <= 4, safety + liveness                           255 039 states
-     Sync_fine.cfg       repaired, Fine = TRUE (the model the traces are validated against) 314 302 states
-     Sync_lagw.cfg       repaired, Lag = W = 2 as in the code, chain 5, safety             1 358 282 states
-     Sync_faults2.cfg    repaired, chain <= 4, 1 source step, 2 faults, safety             655 895 states
-     Sync_thorough.cfg   repaired, chain <= 4, 2 source steps, 1 fault, safety           4 156 713 states
-     Sync_big.cfg        repaired, chain <= 4, 2 source steps, 2 faults, safety         10 502 715 states (optional) *)
+     Sync_live4.cfg      repaired, chain <= 4, safety + liveness                       519 059 states
+     Sync_fine.cfg       repaired, Fine = TRUE (the model the traces are validated against) 605 973 states
+     Sync_lagw.cfg       repaired, Lag = W = 2 as in the code, chain 5, safety         2 907 211 states
+     Sync_faults2.cfg    repaired, chain <= 4, 1 source step, 2 faults, safety         2 523 682 states
+     Sync_thorough.cfg   repaired, chain <= 4, 2 source steps, 1 fault, safety         8 628 206 states
+     Sync_big.cfg        repaired, chain <= 4, 2 source steps, 2 faults, safety (optional; 10.5 M states before the
+                         wrong-height / forged answers were added, not re-measured) *)
 EXTENDS Sync
 =============================================================================
